@@ -297,6 +297,14 @@ def run_item(ctx, item):
                     # a repeat sign that was never closed (a part under construction, or edited by hand)
                     p.add(S.Repeat(), ms[2].start.t)
                     ctx.extra["scores_with_an_open_repeat"] += 1
+        if rng.random() < 0.3:
+            # notes entered without a note value (as a part built from onsets and durations alone): what the library
+            # derives for them on the fly must not be written back by a read-only call
+            for p_ in sc.parts:
+                for n_ in p_.iter_all(S.GenericNote, include_subclasses=True):
+                    if not isinstance(n_, S.GraceNote) and rng.random() < 0.6:
+                        n_.symbolic_duration = None
+            ctx.extra["scores_with_notes_without_a_note_value"] += 1
         if rng.random() < 0.4:
             # configurations: musical-beat mode with user-supplied beats per signature
             for p_ in sc.parts:
